@@ -118,6 +118,7 @@ package ntor
 // retry loop is probabilistic and not decided.
 //@ func NewKeypair(elligator) (kp, err)
 //@   serves C07 C18 C10
+//@   assert_at x25519ell2.ScalarBaseMult#1 [C07:tweak_is_the_whole_digest_byte] arg3 == digest[63]
 //@   loop 1 invariant keypair != nil && fresh(keypair) && keypair.private != nil && keypair.public != nil && fresh(keypair.private) && fresh(keypair.public) && keypair.private != keypair.public
 //@   loop 1 invariant elligator == (keypair.representative != nil) && (elligator ==> fresh(keypair.representative))
 //@   ensures (err == nil) == (kp != nil)
